@@ -233,5 +233,8 @@ end TieRaceOkV
 #print axioms TieRaceOkV.new_wf
 #print axioms TieRaceOkV.v0_false
 #print axioms TieRaceOkV.drop_v0_false
+#print axioms TieRaceOkV.wf_g0
+#print axioms TieRaceOkV.wf_g1
+#print axioms TieRaceOkV.fs_scr
 
 end Fc
